@@ -346,7 +346,7 @@ def _tak_inv1(c):
       FA([i], z3.Implies(z3.And(0 <= i, i < filled),
                          z3.And(h.elt(pv, i) == tak_valof(g, has0, val0, Nv, i),
                                 z3.Or(Nv, isset(g, has0, i), sig_hasdef(g, i)))),
-         patterns=[h.elt(pv, i)]),
+         patterns=[h.elt(pv, i), sig_hasdef(g, i)]),
       # the skipped (unset) slots, in order
       h.len(up) == z3.If(Nv, 0, ke - ls),
       FA([i], z3.Implies(z3.And(0 <= i, i < h.len(up)), h.elt(up, i) == VParam(g, ls + i)),
@@ -378,7 +378,7 @@ def _tak_inv2(c):
       FA([i], z3.Implies(z3.And(0 <= i, i < ne),
                          z3.And(h.elt(pv, i) == tak_valof(g, has0, val0, Nv, i),
                                 z3.Or(Nv, isset(g, has0, i), sig_hasdef(g, i)))),
-         patterns=[h.elt(pv, i)]),
+         patterns=[h.elt(pv, i), sig_hasdef(g, i)]),
       FA([j], z3.Implies(z3.And(vps <= j, j < vps + m), has0[IK(j)]), patterns=[has0[IK(j)]]),
       FA([j], z3.Implies(z3.And(ne <= j, j < ne + m), h.elt(pv, j) == val0[IK(j - ne + vps)]),
          patterns=[h.elt(pv, j)]))
